@@ -271,6 +271,19 @@ func foldASCII(a, b []byte) bool {
 	return true
 }
 
+// unsortOK: reversing the record's lists gives another spelling of the SAME record (the
+// packed octets do not change: SVCB/HTTPS parameters are sorted by key on the wire).
+func (in *inst) unsortOK() bool {
+	a := in.make(abs{1, 1, 'a', 1, 'x', 0})
+	b := in.make(abs{1, 1, 'a', 1, 'x', 0})
+	if !rw.Unsort(b) {
+		return false
+	}
+	wa, e1 := packRR(a)
+	wb, e2 := packRR(b)
+	return e1 == nil && e2 == nil && bytes.Equal(wa, wb)
+}
+
 // textual reports whether changing the value cell changes the record's text (Dedup works on text).
 func (in *inst) textual() bool {
 	a := in.make(abs{1, 1, 'a', 1, 'x', 0})
@@ -282,19 +295,27 @@ func (in *inst) textual() bool {
 // replay
 
 type vec struct {
-	Kind  string `json:"kind"`
-	A     abs    `json:"a"`
-	B     abs    `json:"b"`
-	C     abs    `json:"c"`
-	Dup   bool   `json:"dup"`
-	AB    bool   `json:"ab"`
-	BC    bool   `json:"bc"`
-	AC    bool   `json:"ac"`
-	Q     []int  `json:"q"`
-	Names bool   `json:"names"`
-	Keep  []int  `json:"keep"`
-	Ttls  []int  `json:"ttls"`
+	Kind   string `json:"kind"`
+	A      abs    `json:"a"`
+	B      abs    `json:"b"`
+	C      abs    `json:"c"`
+	Dup    bool   `json:"dup"`
+	AB     bool   `json:"ab"`
+	BC     bool   `json:"bc"`
+	AC     bool   `json:"ac"`
+	Q      []int  `json:"q"`
+	Names  bool   `json:"names"`
+	Keep   []int  `json:"keep"`
+	Ttls   []int  `json:"ttls"`
+	Shape  int    `json:"shape"`
+	Owners []hx.B `json:"owners"`
+	Oct    int    `json:"oct"`
+	W      int    `json:"w"`
+	Ta     hx.B   `json:"ta"`
+	Tb     hx.B   `json:"tb"`
 	// replay files
+	UA    bool   `json:"ua,omitempty"`
+	UB    bool   `json:"ub,omitempty"`
 	RKind string `json:"rkind,omitempty"`
 	NameP string `json:"namep,omitempty"`
 	ValP  string `json:"valp,omitempty"`
@@ -336,36 +357,64 @@ func fieldOf(path string) string {
 }
 
 type replayer struct {
-	sum   *hx.Summary
-	seen  map[string]bool
-	skips map[string]int
+	ua, ub bool
+	sum    *hx.Summary
+	seen   map[string]bool
+	skips  map[string]int
 }
 
 func (rp *replayer) caseOf(in *inst, v *vec) map[string]interface{} {
 	c := *v
 	c.RKind, c.NameP, c.ValP = in.kind.Name, in.namePath, in.valPath
+	c.UA, c.UB = rp.ua, rp.ub
 	return map[string]interface{}{"vector": c}
 }
 
 func (rp *replayer) pairs(in *inst, vecs []*vec, useName, useVal bool) {
-	cache := map[abs]dns.RR{}
-	get := func(a abs) dns.RR {
-		if r, ok := cache[a]; ok {
-			return r
-		}
+	rp.pairsU(in, vecs, useName, useVal, false, false)
+}
+
+// pairsU: ua / ub = the first / second argument is given with its lists in reversed order.
+func (rp *replayer) pairsU(in *inst, vecs []*vec, useName, useVal, ua, ub bool) {
+	rp.ua, rp.ub = ua, ub
+	defer func() { rp.ua, rp.ub = false, false }()
+	type ck struct {
+		a abs
+		u bool
+	}
+	cache := map[ck]dns.RR{}
+	mk := func(a abs, u bool) dns.RR {
 		r := in.make(a)
-		cache[a] = r
+		if u {
+			rw.Unsort(r)
+		}
 		return r
 	}
+	getU := func(a abs, u bool) dns.RR {
+		if r, ok := cache[ck{a, u}]; ok {
+			return r
+		}
+		r := mk(a, u)
+		cache[ck{a, u}] = r
+		return r
+	}
+	get := func(a abs) dns.RR { return getU(a, ua) }
+	order := ""
+	if ua {
+		order += ":first-unsorted"
+	}
+	if ub {
+		order += ":second-unsorted"
+	}
 	base := abs{1, 1, 'a', 1, 'x', 0}
-	never := !dns.IsDuplicate(get(base), in.make(base))
+	never := !dns.IsDuplicate(in.make(base), in.make(base))
 	kn := keyName(in.kind.Name)
 	check := func(a, b abs, exp bool, v *vec) bool {
-		ra, rb := get(a), get(b)
+		ra, rb := get(a), getU(b, ub)
 		if a == b {
-			rb = in.make(b) // a separately built equal record, and a copy
+			rb = mk(b, ub) // a separately built equal record, and a copy
 			if !dns.IsDuplicate(ra, dns.Copy(ra)) {
-				key := "isduplicate/false-negative:" + kn + ":copy"
+				key := "isduplicate/false-negative:" + kn + ":copy" + order
 				if never {
 					key = "isduplicate/" + kn + "-never-duplicate"
 				}
@@ -374,7 +423,7 @@ func (rp *replayer) pairs(in *inst, vecs []*vec, useName, useVal bool) {
 		}
 		got := dns.IsDuplicate(ra, rb)
 		rp.sum.Evaluations++
-		rp.seen[kn+"/"+rel(a, b)+"/"+strconv.FormatBool(got)] = true
+		rp.seen[kn+"/"+rel(a, b)+order+"/"+strconv.FormatBool(got)] = true
 		if got == exp {
 			return got
 		}
@@ -396,6 +445,9 @@ func (rp *replayer) pairs(in *inst, vecs []*vec, useName, useVal bool) {
 				key += ":" + fieldOf(in.valPath)
 			}
 		}
+		if !(exp && never) {
+			key += order
+		}
 		rp.sum.Mis(key, fmt.Sprintf("%s: IsDuplicate = %v, Dup.tla says %v for records differing in {%s} (name field %s, value field %s)",
 			in.kind.Name, got, exp, rel(a, b), in.namePath, in.valPath), rp.caseOf(in, v))
 		return got
@@ -416,6 +468,54 @@ func (rp *replayer) pairs(in *inst, vecs []*vec, useName, useVal bool) {
 					rp.sum.Mis("isduplicate/not-transitive:"+kn, in.kind.Name+": IsDuplicate(a,b), IsDuplicate(b,c) but not IsDuplicate(a,c)", rp.caseOf(in, v))
 				}
 			}
+		}
+	}
+}
+
+// octets: names that differ in one octet c / c XOR 0x20, as owner and in every embedded name.
+func (rp *replayer) octets(k rw.Kind, names []string, vecs []*vec) {
+	kn := keyName(k.Name)
+	base := &inst{kind: k}
+	never := !dns.IsDuplicate(base.make(abs{1, 1, 'a', 1, 'x', 0}), base.make(abs{1, 1, 'a', 1, 'x', 0}))
+	var usable []string
+	for _, n := range names {
+		if (&inst{kind: k, namePath: n}).valid() {
+			usable = append(usable, n)
+		}
+	}
+	for _, v := range vecs {
+		if v.Kind != "octet" {
+			continue
+		}
+		try := func(where, field string, set func(rr dns.RR, s string)) {
+			ra, rb := k.Build(), k.Build()
+			set(ra, v.Ta.String())
+			set(rb, v.Tb.String())
+			g1, g2 := dns.IsDuplicate(ra, rb), dns.IsDuplicate(rb, ra)
+			rp.sum.Evaluations += 2
+			rp.seen[kn+"/xor20-"+where+"/"+strconv.FormatBool(g1)] = true
+			if g1 == v.Dup && g2 == v.Dup {
+				return
+			}
+			key := "isduplicate/false-positive:" + kn + ":" + where + "-octet-xor-0x20" + field
+			if v.Dup {
+				key = "isduplicate/false-negative:" + kn + ":" + where + "-case" + field
+				if never {
+					key = "isduplicate/" + kn + "-never-duplicate"
+				}
+			}
+			c := *v
+			c.RKind = k.Name
+			rp.sum.Mis(key, fmt.Sprintf("%s: IsDuplicate = %v / %v for %s %q vs %q (octet %d vs %d), Dup.tla says %v",
+				k.Name, g1, g2, where, v.Ta.String(), v.Tb.String(), v.Oct, v.Oct^0x20, v.Dup), map[string]interface{}{"vector": c})
+		}
+		if v.W == 1 {
+			try("owner", "", func(rr dns.RR, s string) { rr.Header().Name = s })
+			continue
+		}
+		for _, n := range usable {
+			n := n
+			try("name", ":"+fieldOf(n), func(rr dns.RR, s string) { cellAt(rr, n).V.SetString(s) })
 		}
 	}
 }
@@ -460,6 +560,9 @@ func (rp *replayer) lists(in *inst, vecs []*vec, hasName, hasVal bool) {
 		list := make([]dns.RR, len(v.Q))
 		for i, s := range v.Q {
 			list[i] = in.symbol(s, hasName, hasVal)
+			if len(v.Owners) == 3 { // the owner spellings of the vector: r / other case / another owner
+				list[i].Header().Name = v.Owners[map[int]int{3: 1, 5: 2}[s]].String()
+			}
 		}
 		orig := append([]dns.RR(nil), list...)
 		out := dns.Dedup(list, nil)
@@ -513,16 +616,26 @@ func replay(path string, shard, nshards int, only string) {
 		names, vals := cellsOf(k)
 		if one {
 			in := &inst{kind: k, namePath: vecs[0].NameP, valPath: vecs[0].ValP}
-			rp.pairs(in, vecs, in.namePath != "", in.valPath != "")
+			rp.pairsU(in, vecs, in.namePath != "", in.valPath != "", vecs[0].UA, vecs[0].UB)
 			rp.lists(in, vecs, in.namePath != "", in.valPath != "")
+			rp.octets(k, names, vecs)
 			continue
 		}
 		// every name cell and every other cell is the cell under test once, accompanied by
 		// the first cell of the other class with which the instantiation is faithful
 		covered := map[string]bool{}
+		unsorted := 0
 		run := func(in *inst) {
 			rp.pairs(in, vecs, in.namePath != "", in.valPath != "")
 			covered[in.namePath], covered[in.valPath] = true, true
+			// the same records with their lists in another order, where the order is not part of
+			// the record (first instantiations of the kind; all of them in the thorough tier)
+			if (unsorted < 3 || hx.Thorough()) && in.unsortOK() {
+				unsorted++
+				rp.pairsU(in, vecs, in.namePath != "", in.valPath != "", false, true)
+				rp.pairsU(in, vecs, in.namePath != "", in.valPath != "", true, false)
+				rp.pairsU(in, vecs, in.namePath != "", in.valPath != "", true, true)
+			}
 		}
 		var listInst *inst
 		for _, n := range names {
@@ -571,6 +684,7 @@ func replay(path string, shard, nshards int, only string) {
 		if k.Type != dns.TypeOPT { // the TTL of an OPT is not a TTL
 			rp.lists(listInst, vecs, listInst.namePath != "", listInst.valPath != "")
 		}
+		rp.octets(k, names, vecs)
 	}
 	sum.Nontrivial = len(rp.seen)
 	sk := make([]string, 0, len(rp.skips))
@@ -667,6 +781,18 @@ func rdataText(s string) string {
 		s = s[i+1:]
 	}
 	return s
+}
+
+// owner spellings for random Dedup lists: {r, the same in the other case, another owner};
+// escaped octets next to the letters whose case changes (index 0: the kind's own owner)
+var ownerShapes = [][3]string{
+	{},
+	{"a\\\\B.example.nl.", "A\\\\b.Example.NL.", "a\\\\c.example.nl."},
+	{"a\\.B.example.nl.", "A\\.b.example.nl.", "a\\.c.example.nl."},
+	{"a\\007B.example.nl.", "A\\007b.example.nl.", "a\\007c.example.nl."},
+	{"\\\\\\\\B.example.nl.", "\\\\\\\\b.example.nl.", "\\\\\\\\c.example.nl."},
+	{"B\\\\\\\\\\\\.example.nl.", "b\\\\\\\\\\\\.example.nl.", "c\\\\\\\\\\\\.example.nl."},
+	{"\\\\B\\\"Z\\;q.example.nl.", "\\\\b\\\"z\\;Q.example.nl.", "\\\\c\\\"Z\\;q.example.nl."},
 }
 
 func limbs(t uint32) [2]int { return [2]int{int(t >> 16), int(t & 0xffff)} }
@@ -791,13 +917,29 @@ func record(out string, n int) {
 			if mutate {
 				a[0] = 1
 			}
-			ra, wa, bytesA, mut := fromWire(in.make(a), mutate)
+			rra, rrb := in.make(a), in.make(b)
+			r := rel(a, b)
+			if !mutate && rng.Intn(6) == 0 {
+				// names that differ in one octet c / c XOR 0x20, in the owner or in an embedded name
+				c := rng.Intn(256)
+				ta, tb := fmt.Sprintf("x\\%03dy.nl.", c), fmt.Sprintf("x\\%03dy.nl.", c^0x20)
+				b = a
+				rrb = in.make(b)
+				if in.namePath != "" && rng.Intn(2) == 0 {
+					cellAt(rra, in.namePath).V.SetString(ta)
+					cellAt(rrb, in.namePath).V.SetString(tb)
+					r = "name-octet-xor-0x20"
+				} else {
+					rra.Header().Name, rrb.Header().Name = ta, tb
+					r = "owner-octet-xor-0x20"
+				}
+			}
+			ra, wa, bytesA, mut := fromWire(rra, mutate)
 			if ra == nil {
 				continue
 			}
 			var rb dns.RR
 			var wb *wireRec
-			r := rel(a, b)
 			if mutate && rng.Intn(2) == 0 { // the same octets, decoded again
 				rb, _, _ = dns.UnpackRR(bytesA, 0)
 				wb = wa
@@ -807,10 +949,24 @@ func record(out string, n int) {
 					b = a
 					r = "one-octet"
 				}
-				rb, wb, _, _ = fromWire(in.make(b), false)
+				rb, wb, _, _ = fromWire(rrb, false)
 			}
 			if rb == nil {
 				continue
+			}
+			if rng.Intn(4) == 0 {
+				// another spelling of the same octets: the lists of the decoded record reversed,
+				// where the library packs that to the same wire form
+				for _, side := range []dns.RR{ra, rb}[rng.Intn(2):][:1] {
+					w0, e0 := packRR(side)
+					cp := dns.Copy(side)
+					if e0 == nil && rw.Unsort(cp) {
+						if w1, e1 := packRR(cp); e1 == nil && bytes.Equal(w0, w1) {
+							rw.Unsort(side)
+							r += "+reordered"
+						}
+					}
+				}
 			}
 			ra2, _, _ := dns.UnpackRR(bytesA, 0)
 			sum.Evaluations++
@@ -826,12 +982,19 @@ func record(out string, n int) {
 			continue
 		}
 		m := 2 + rng.Intn(6)
+		shape := rng.Intn(2 * len(ownerShapes))
+		if shape >= len(ownerShapes) {
+			shape = 0
+		}
 		list := make([]dns.RR, m)
 		var texts []textRec
 		for j := range list {
 			a := randAbs(p, rng)
 			a[0] = 1
 			rr := in.make(a)
+			if shape > 0 {
+				rr.Header().Name = ownerShapes[shape][map[int]int{'a': 0, 'A': 1, 'b': 2}[a[2]]]
+			}
 			rr.Header().Ttl = []uint32{0, 1, 300, 3600, 0x7fffffff, 0x80000000, 0xffffffff, uint32(rng.Intn(100000))}[rng.Intn(8)]
 			list[j] = rr
 			h := rr.Header()
